@@ -24,7 +24,8 @@ META = {
         'grids/rows/cells of an executed round trip.'
         ' Also: the empty display string of a reference is a display string -- Ref.__init__ (decision table of has_value), the hs_ref action (presence by token count) and the JSON reference branch (presence by `is not None`; the display group of REF_RE has minimum width 0).'
         ' Also (D1): the escaping substitution has no replacement count.  (D2) no value text is part of a %-format template.'
-        ' Also (D1): str.translate tables are modelled as an escaping phase.  (D2) greedy group splits in the decode cascade.'),
+        ' Also (D1): str.translate tables are modelled as an escaping phase.  (D2) greedy group splits in the decode cascade.'
+        ' Round 9: (D1) the document is cut into grids by GRID_SEP.split only; a splitter regex that knows the string quoting but not the URI quoting is a violation with a derived witness.'),
     'rule_text': 'obligations = code-point classes x {accepted, contained, decoded} for strings and URIs, whole-token '
                  'inclusions, text-carrying positions x routing, JSON text kinds x cascade/capture',
     'trusted_base': ['re.sub with a single-character class and str.replace with a single-character key are character '
